@@ -104,6 +104,13 @@ def raising_subscribers(ctx):
             ctx.case(('raising-subscriber', exc.__name__), n=15)
             want = []
             for k in range(5): want += [('named', (), (('amount', 100 + k), ('who', k))), ('plain', (200 + k, k), ()), ('pad', (k,), ())]
+            stored = None
+            try: stored = pl._battle_controller.entities[eid].properties['client'].get('pad')
+            except Exception: pass
+            if stored != 4:
+                ctx.violation(dict(kind='direct', clause='client property values equal the most recent value sent (also when a subscriber of that property fails)', subscriber_raises=exc.__name__,
+                                   expected=4, stored=repr(stored), how='five updates of Thing.pad (0..4) with a subscriber that raises, lenient play: the entity must hold the last value'))
+                return
             if calls != want:
                 ctx.violation(dict(kind='direct', clause='a subscriber is invoked exactly once per matching packet (also when it fails inside its own body)', subscriber_raises=exc.__name__,
                                    expected=[repr(x) for x in want[:6]], observed=[repr(x) for x in calls[:8]], expected_calls=len(want), observed_calls=len(calls),
